@@ -17,6 +17,7 @@ func NewCallGraph() CallGraph {
 
 func (c CallGraph) Analysis(funcName string, clzs []core_domain.CodeDataStruct, lookup bool) string {
 	methodMap := BuildMethodMap(clzs)
+	loopCount = 0
 	chain := BuildCallChain(funcName, methodMap, nil)
 
 	if lookup {
